@@ -13,7 +13,7 @@
    None, members may be named `kind`/`cls`, lambda parameter kinds come back as ParameterKind, full-mode documents with
    docstrings decode. *)
 From Coq Require Import List ZArith String Ascii Bool Arith.
-From Verif Require Import Lib.Sexp Gen.C08_tables Gen.C08_text_tables Model.C08_json Model.C08_full Model.C08_text Model.C08_links Model.C08_hook Proofs.C08_json Proofs.C08_full Proofs.C08_text Proofs.C08_text_tables Proofs.C08_links Proofs.C08_hook.
+From Verif Require Import Lib.Sexp Gen.C08_tables Gen.C08_text_tables Model.C08_json Model.C08_full Model.C08_text Model.C08_links Model.C08_hook Model.C08_entry Proofs.C08_json Proofs.C08_full Proofs.C08_text Proofs.C08_text_tables Proofs.C08_links Proofs.C08_hook Proofs.C08_entry.
 Import ListNotations.
 Open Scope string_scope. Open Scope list_scope. Open Scope nat_scope.
 
@@ -311,3 +311,40 @@ Theorem C08_refuted_links_local :
                                [("conditions", VList []); ("is_async", VBool false); ("iterable", nm "xs"); ("target", VName "i" LScope)]])].
 Proof. exact refuted_links_local. Qed.
 Print Assumptions C08_refuted_links_local.
+
+(* ---- the two documented ways of loading a dump (Model/C08_entry.v): Cls.from_json(text), and json_decoder used directly
+   as object_hook of json.loads.  For every text, what from_json returns is what the bare hook returns ... *)
+Theorem C08_entry_points_agree : forall w s v,
+  (from_json_text w s = TOk v -> loads_hook s = TOk v) /\
+  (loads_hook s = TOk v -> is_instance w v = true -> from_json_text w s = TOk v) /\
+  (loads_hook s = TOk v -> is_instance w v = false -> from_json_text w s = TErr EType).
+Proof. exact entry_points_agree. Qed.
+Print Assumptions C08_entry_points_agree.
+
+(* ... on the dump of any tree, in both modes, both build [reload t], the parent link of every name included ... *)
+Theorem C08_entry_points_on_dump :
+  (forall t, rep t = true ->
+     loads_hook (dumps (enc_min t)) = TOk (PTree (reload t)) /\
+     from_json_text (WKind (kind_of_tree t)) (dumps (enc_min t)) = TOk (PTree (reload t))) /\
+  (forall c t j, rep t = true -> enc_fullD c t = Ok j ->
+     loads_hook (dumps j) = TOk (PTree (reload t)) /\
+     from_json_text (WKind (kind_of_tree t)) (dumps j) = TOk (PTree (reload t))).
+Proof. split; [exact entry_points_on_dump|exact entry_points_on_full_dump]. Qed.
+Print Assumptions C08_entry_points_on_dump.
+
+(* ... and the dictionary of packages that `griffe dump` writes loads, through the bare hook, to the dictionary of the
+   reloaded packages, each the tree Module.from_json gives for that package (from_json rejects the dictionary itself) *)
+Theorem C08_packages_doc_loads : forall ps, Forall (fun km : string * tree => rep (snd km) = true) ps ->
+  loads_hook (dumps (packages_doc ps)) = TOk (PDict (dmembers ps)) /\
+  (forall w, from_json_text w (dumps (packages_doc ps)) = TErr EType) /\
+  (forall k m, In (k, m) ps -> In (k, PTree (reload m)) (dmembers ps) /\ loads_hook (dumps (enc_min m)) = TOk (PTree (reload m))).
+Proof. exact packages_doc_loads. Qed.
+Print Assumptions C08_packages_doc_loads.
+
+Theorem C08_example_entry :
+  from_json_text (WKind kind_module) (dumps (enc_min ex_tree)) = TOk (PTree ex_tree) /\
+  loads_hook (dumps (enc_min ex_tree)) = TOk (PTree ex_tree) /\
+  from_json_text (WKind kind_class) (dumps (enc_min ex_tree)) = TErr EType /\
+  loads_hook (dumps (packages_doc [("pkg", ex_tree); ("kind", ex_tree)])) = TOk (PDict [("pkg", PTree ex_tree); ("kind", PTree ex_tree)]).
+Proof. exact example_entry. Qed.
+Print Assumptions C08_example_entry.
